@@ -73,6 +73,9 @@ func plainDownlink(r *rand.Rand) ([]byte, string) {
 		return b, "RegistrationAccept"
 	case 3, 4: // DL NAS TRANSPORT: payload container type 1, container LV-E of any length, optional PDU session id (12 TV)
 		n := 1 + r.Intn(200)
+		if r.Intn(12) == 0 { // a payload container is an LV-E of up to 65535 octets: lengths around the buffer sizes implementations like
+			n = pick(r, 255, 256, 2030+r.Intn(30), 2047, 2048, 2049, 4095, 4096, 4097, 8191, 8192, 16383, 16384, 32768, 65535, 300+r.Intn(65000))
+		}
 		b := []byte{0x7e, 0x00, 0x68, 0x01, byte(n >> 8), byte(n)}
 		b = append(b, rbytes(r, n)...)
 		if r.Intn(2) == 0 {
